@@ -5,6 +5,14 @@ V = os.path.dirname(os.path.dirname(os.path.abspath(__file__)))
 
 # id: (level, engine, technique, level text, level note, design section)
 CHECKS = {
+ "C07": ("model_checking", "e1",
+  "explicit-state enumeration of all spend histories of a bounded grammar (no state merging), each executed on the real binary and compared with a reference UTXO state machine",
+  "Every history of the grammar (3 blocks; coinbases A/B/duplicate txid; up to 2 (quick) or 3 (thorough) non-coinbase transactions in any block; inputs drawn from earlier outputs, later outputs, unknown txids, out-of-range indices and already-referenced outpoints; outputs from address-bearing, OP_RETURN, bare multisig and zero-value kinds) is materialised and dumped with unspentcsvdump; the row set, header, duplicates, file name and summary totals must equal the model's UTXO map. Output-index width sweeps (255/256/65535/65536), --start ranges and two more coins are included.",
+  "Trusted: SHA-256/RIPEMD-160, rusty-leveldb. Bound: 3 blocks, <=2/3 non-coinbase txs with the output-pattern restrictions stated in the evidence; long random histories are not sampled (different family).", "6/C07"),
+ "C08": ("model_checking", "e1",
+  "same explicit-state history enumeration as C07, run through balances and unspentcsvdump; balances compared with the model and with the aggregation of the observed unspent dump (differential)",
+  "Every history of the C07 grammar extended with P2PK outputs of the key behind address A (same address through two script types) is run through both callbacks: balances must list each address with >=1 unspent output exactly once with the exact sum, and must equal the per-address aggregation of the unspent dump of the same world and range.",
+  "As C07. Sums stay far below 2^64 (values of a few coins).", "6/C08"),
  "C09": ("fault_enumeration", "e1",
   "exhaustive single-fault enumeration: every single-bit flip of every prev-hash, merkle-root and transaction byte of every block of small chains (plus block swaps, wrong genesis, --start offsets) injected into the stored data and run through the real binary with --verify; consistent chains of every small merkle-tree shape must pass",
   "For 4-block chains with 1, 2 and 3 transactions per block every bit of every covered byte is flipped, one at a time, in the materialised blk file and the real binary is run with --verify: it must exit non-zero, leave no final-named file and name the corrupted height. 120 consistent chains (tx counts 1..17, 31..33, 64, 65; all 8 coins; --start 0..2; AuxPoW) must be accepted with model-equal output.",
